@@ -952,7 +952,11 @@ func (ctx *Context) evaluate() {
 
 		case typeDiceCocBonus, typeDiceCocPenalty:
 			t := stackPop()
-			diceNum := t.MustReadInt()
+			diceNum, ok := t.ReadInt()
+			if !ok || diceNum < 0 {
+				ctx.Error = errors.New("奖励/惩罚骰个数必须为非负整数")
+				return
+			}
 
 			if numOpCountAdd(diceNum) {
 				return
